@@ -34,6 +34,14 @@ Named == UNION { SetOf(E.bolt[i].files) : i \in DOMAIN E.bolt }
 MergedRootFilesProtected == (IsSample /\ E.rootStable) =>
    \A f \in SetOf(E.root) \cap mergeOut : f \in SetOf(E.namedAny) \/ f \in SetOf(E.inelAny)
 
+\* the purger's step itself: a file it removes is, at that very moment (inside its
+\* root-lock section), neither used by the root, nor named by a recorded snapshot,
+\* nor marked ineligible, nor scheduled for a running copy
+IsPurge == l <= Len(Trace) /\ E.ev = "PurgeZap"
+PurgeRemovesOnlyUnneeded == IsPurge =>
+   /\ E.file \notin SetOf(E.rootfiles) /\ E.file \notin SetOf(E.named)
+   /\ E.file \notin SetOf(E.inel) /\ E.file \notin SetOf(E.copysched)
+
 \* every file a snapshot recorded in the metadata store names exists
 BoltFilesOnDisk == IsSample => \A i \in DOMAIN E.bolt : SetOf(E.bolt[i].files) \subseteq Disk
 \* every file segment of the current root exists
